@@ -79,75 +79,27 @@ def run(ctx):
     DR.stops_rule(ctx, "C09.2", ER, "the length-limited body reader", emit=("repeats",))
     DR.owed_rules(ctx, "C09.2", ER, (1, "*", "." + SFIELD))
 
-    # ---- C09.6 end-of-body latches: a draining destructor that is switched off by a flag (`finished`) relies on that flag
-    # being set only when the body really ended: after an inner read failed, or returned 0 into a NON-EMPTY buffer (a
-    # zero-length read returns 0 anywhere in the body)
-    n_latch = 0
-    for aid, a in sorted(facts.adts.items()):
-        d = facts.drop_fn(aid)
-        rd = facts.trait_method(T_READ, aid, "read")
-        if d is None or rd is None or not a["has_drop"]:
-            continue
-        bools = [fl["name"] for v in a["variants"] for fl in v["fields"] if fl["ty"] == "bool"]
-        dreads = [bb for bb, t in d.calls() if t.get("callee") == "std::io::Read::read" or call_matches(t, r" as std::io::Read>::read$")]
-        if not bools or not dreads:
-            continue
-        # latch: a bool field the destructor's read loop is guarded by
-        latches = set()
-        for bb in sorted(d.live_blocks()):
-            bs = bool_switch(d, bb)
-            if bs and any(d.dominates(bb, r, unwind=False) for r in dreads):
-                latches |= origin_fields(d.origin(bs[0])) & set(bools)
-        rf = facts.fns[rd]
-        for L in sorted(latches):
-            for g2, b2, kind, x in facts.field_writes(aid, L):
-                if g2.id == d.id or kind != "assign":
-                    continue
-                if not (x["rhs"]["rv"] == "use" and op_const(x["rhs"]["op"]) is True):
-                    continue
-                n_latch += 1
-                g = g2
-                dom = g.dominators(False)
-                P = g.preds(unwind=False)
-                def edge_dom(src, tgt):
-                    """does taking the edge src->tgt dominate b2? (tgt must not be a join of other edges)"""
-                    return tgt is not None and g.dominates(tgt, b2, unwind=False) and set(P[tgt]) == {src}
-                on_err = on_zero = nonempty = False
-                for b in dom[b2]:
-                    sw = switch_on_discr(g, b)
-                    if sw and sw[0].get("adt") in ("std::result::Result", "std::ops::ControlFlow") and origin_has_call(g.origin_place(sw[0]["pl"]), r"Read>?::read$"):
-                        rv, m, otherwise, rest = sw
-                        for vn in ("Err", "Break"):
-                            et = m.get(vn, otherwise if vn in rest else None)
-                            if edge_dom(b, et) and et not in [m.get("Ok"), m.get("Continue")]:
-                                on_err = True
-                    t = g.term(b)
-                    if t["t"] == "switch" and t["dty"] not in ("bool", "isize"):
-                        tg = dict((v, bb_) for v, bb_ in t["targets"])
-                        if 0 in tg and edge_dom(b, tg[0]) and tg[0] != t["otherwise"]:
-                            o = g.origin(t["discr"])
-                            if any(y[0] == "downcast" and y[2] in ("Ok", "Continue") for y in origin_walk(o)):
-                                on_zero = True
-                    bs = bool_switch(g, b)
-                    if bs:
-                        o = g.origin(bs[0])
-                        if o[0] == "binop" and o[1] == "Eq" and o[3][0] == "const" and o[3][1] == 0 and any(y[0] == "downcast" and y[2] in ("Ok", "Continue") for y in origin_walk(o[2])) \
-                                and edge_dom(b, bs[1]) and bs[1] != bs[2]:
-                            on_zero = True
-                        neg = False
-                        while o[0] == "unop" and o[1] == "Not":
-                            neg = not neg; o = o[2]
-                        if o[0] == "call" and re.search(r"<impl \[T\]>::is_empty$|<impl \[u8\]>::is_empty$", o[1]) and any(y[0] == "arg" for y in origin_walk(o)):
-                            ne_edge = bs[1] if neg else bs[2]
-                            if edge_dom(b, ne_edge) and bs[1] != bs[2]:
-                                nonempty = True
-                        if o[0] == "binop" and o[1] in ("Gt", "Ne") and origin_has_call(o[2], r"::len$") and o[3][0] == "const" and o[3][1] == 0 and g.dominates(bs[1], b2, unwind=False):
-                            nonempty = True
-                ok = on_err or (on_zero and nonempty)
-                ctx.ob("C09.6", "%s|latch-%s|%s" % (g.id, L, "err" if on_err else "eof"),
-                       "the flag that switches the draining destructor off is set only after a failed read or a read of 0 bytes into a non-empty buffer",
-                       ok, g.loc(b2), None if ok else "set on: error-arm=%s zero-count=%s non-empty-buffer=%s: a zero-length read in the middle of the body would mark it finished and the rest would be parsed as the next request" % (on_err, on_zero, nonempty))
-    ctx.counts["C09.6 latch assignments"] = n_latch
+    # ---- C09.6 end-of-body latches: a draining destructor that can be switched off by the reader's own state relies on that state changing
+    # only when the body really ended; a zero-length read returns 0 anywhere in the body and must not do it
+    n_latch = DR.latch_rule(ctx, "C09.6")
+    ctx.counts["C09.6 latch-governed draining readers examined"] = n_latch
+    ctx.ob("C09.6", "latch|population", "the chunked body reader (the draining reader that is not governed by a byte counter) was found and examined", n_latch >= 1, "request.rs")
+
+    # ---- C09.7 the request that is given the raw reader is the last one of its connection: new_request hands the raw reader out when the
+    # lower-cased Connection value contains `upgrade` (C09.1); the parser must end the connection after that request on the very same
+    # test.  Its decision table is the one C12.1 extracts; taken over here.
+    import rules_C12, engine
+    c2 = engine.Ctx("C09", "quick", facts, 0)
+    try:
+        rules_C12.keepalive_table(c2)
+    except CheckerError as e:
+        ctx.ob("C09.7", "parser|upgrade-ends-connection", "the parser's keep-alive decision could be extracted", False, "client.rs", str(e))
+    n7 = 0
+    for o in c2.obs:
+        if o.rule == "C12.1" and o.key.split("|")[-1] in ("atoms", "haystack", "table"):
+            n7 += 1
+            ctx.obs.append(engine.Ob("C09.7|" + o.key.split("|", 1)[1], "C09.7", "[raw reader => last request] " + o.text, o.ok, o.where, o.detail, o.nontrivial))
+    ctx.floor("C09.7 obligations taken from the keep-alive table", n7, 3)
 
     # ---- C09.3 buffered bodies are read completely before the Request is built
     import rules_C03
